@@ -45,7 +45,8 @@ check("C11", "translation_validation",
       "Sequence-semantics translation validation of the real compiled statements for all sort-containing programs of the C02 "
       "space (z3 decides ordered equality for all table contents within the slot bound and all slice bounds), plus path "
       "assertions that buried unsliced sorts are refused and nothing is refused spuriously; statements without outer ORDER BY are "
-      "run on SQLite under both scan orders.", BSV + " and sqlmodel (ORDER BY / LIMIT / OFFSET / DISTINCT semantics)", "3/C11")
+      "run on SQLite under both scan orders; SQL-side trees downstream of a transfer are also compiled after a real Processor "
+      "rebuilt them.", BSV + " and sqlmodel (ORDER BY / LIMIT / OFFSET / DISTINCT semantics)", "3/C11")
 check("C08", "other",
       "Bounded symbolic exploration of the compile pipeline's control flow: every accepted program shape is compiled by the real "
       "engine with symbolic parameters; on each path (z3-feasible parameter region) compilation must return, the statement's "
